@@ -126,6 +126,9 @@ static Verdict c03_types(const Case& c) {
   return V;
 }
 
+// operand window for relations evaluated once (no rescaling): every operand, one of them squared, may enter a product
+static int wide_window(int nt, int nargs) { const int b = (nt == 0 ? 120 : 1000) / (nargs + 1); const int cap = nt == 0 ? 45 : 300; return b > cap ? cap : b < 4 ? 4 : b; }
+
 // ================================================================================================ C04
 // reference contraction: dot products and tensor.vector products on the stored components (C09 textbook formulas)
 static bool contraction_ref(int na, int nb, int nr, const LD* a, const LD* b, Q* out, Q* mag) {
@@ -185,8 +188,9 @@ static Verdict c04_operator(const Case& c) {
 }
 static rc::Gen<Case> gen_c04(int inst) {
   const Ref rf = g_ops[(size_t)inst]; const VfRelation* R = g_rel[rf.nt][(size_t)rf.idx];
-  const int n = total_comps(R), nt = rf.nt, w = nt == 0 ? 12 : 60;
-  return rc::gen::map(gen_reals(n, nt, -w, w, kNeg | kZero), [=](const std::vector<LD>& v) { Case c; c.i = {nt, rf.idx}; c.r = v; return c; });
+  // half of the cases from a moderate window, half from (almost) the whole exponent range: overflow to infinity and underflow are IEEE results too
+  const int n = total_comps(R), nt = rf.nt, w = nt == 0 ? 12 : 60, ww = nt == 0 ? 60 : nt == 1 ? 500 : 8000;
+  return rc::gen::map(rc::gen::oneOf(gen_reals(n, nt, -w, w, kNeg | kZero), gen_reals(n, nt, -ww, ww, kNeg | kZero)), [=](const std::vector<LD>& v) { Case c; c.i = {nt, rf.idx}; c.r = v; return c; });
 }
 // constructor with an operator twin
 struct Twin { int nt; int ctor; int op; bool swapped; };
@@ -407,7 +411,7 @@ static Verdict c05_pair(const Case& c) {
 }
 static rc::Gen<Case> gen_c05(int inst) {
   const Pair& P = g_pairs[(size_t)inst]; const VfRelation* r1 = g_rel[P.nt][(size_t)P.r1];
-  const int n = total_comps(r1), nt = P.nt, w = nt == 0 ? 10 : 40;
+  const int n = total_comps(r1), nt = P.nt, w = wide_window(nt, r1->nargs);
   bool vec = false; for (int a = 0; a < r1->nargs; a++) if (r1->args[a].ncomp > 1) vec = true;
   // "for all positive finite inputs"; components of vector/tensor operands may have either sign
   return rc::gen::map(gen_reals(n, nt, -w, w, vec ? kNeg : 0u), [=](const std::vector<LD>& v) {
@@ -839,7 +843,7 @@ int main(int argc, char** argv) {
   }
   {
     Sub s; s.name = "c18.definitions"; s.property = "C18"; s.instances = (int)g_definst.size(); s.n_quick = 2000; s.n_thorough = 40000; s.run = c18_def;
-    s.gen = [](int inst) { const DefInst& I = g_definst[(size_t)inst]; const VfRelation* R = g_rel[I.nt][(size_t)I.rel]; const int n = total_comps(R), nt = I.nt; const int w = nt == 0 ? 10 : 30;
+    s.gen = [](int inst) { const DefInst& I = g_definst[(size_t)inst]; const VfRelation* R = g_rel[I.nt][(size_t)I.rel]; const int n = total_comps(R), nt = I.nt; const int w = wide_window(nt, R->nargs);
       return rc::gen::map(gen_reals(n, nt, -w, w, kNeg), [=](const std::vector<LD>& v) { Case c; c.i = {inst}; c.r = v; size_t p = 0; for (int a = 0; a < R->nargs; a++) for (int j = 0; j < R->args[a].ncomp; j++, p++) if (R->args[a].ncomp == 1) c.r[p] = std::fabs(c.r[p]); return c; }); };
     s.instance_name = [](int inst) { const DefInst& I = g_definst[(size_t)inst]; return std::string(g_defs[(size_t)I.def].name) + "/" + ntinfo(I.nt).name; };
     s.rule = "a fixed table of textbook definitions (q = rho v^2/2 and its inverses, v^2/2, total = static + dynamic pressure in all arrangements, a = sqrt(K/rho) = sqrt(gamma p/rho) = sqrt(gamma R T), Ma, Re and Pr in every solved form, "
